@@ -393,38 +393,39 @@ func (ex *Exec) timeUnixNano(t timeV) *Term {
 	// UnixNano is only defined by Go for instants whose nanosecond count fits in int64
 	// (years 1678..2262); harness instants are within that range (listed assumption)
 	ex.addCond(tc.And(tc.SGe(r, tc.Int64(0)), tc.SLe(r, tc.Int64(1<<62))))
-	if t.rem.IsConst() && t.rem.isZero() && !r.IsConst() {
+	if !r.IsConst() {
 		if ex.linForms == nil {
 			ex.linForms = map[int]linForm{}
 		}
-		ex.linForms[r.id] = linForm{q: t.q, g: ex.grid, off: off}
+		ex.linForms[r.id] = linForm{q: t.q, rem: t.rem, g: ex.grid, off: off}
 	}
 	return r
 }
 
-// linForm records that a 64-bit term equals q*g - off (no overflow), q an 80-bit term.
+// linForm records that a 64-bit term equals q*g + rem - off (no overflow, value >= 0),
+// q an 80-bit term, 0 <= rem < g.
 type linForm struct {
 	q   *Term
+	rem *Term
 	g   int64
 	off *big.Int
 }
 
-// divLinForm: (q*g - off) / d  ==  q*(g/d) - off/d  when d | g and d | off.
+// divLinForm: (q*g + rem - off) / g  with off = o1*g + o2:
+//   = (q - o1) + floor((rem - o2)/g) = q - o1 - [rem < o2]      (0 <= rem, o2 < g)
 func (ex *Exec) divLinForm(a *Term, d int64) *Term {
 	lf, ok := ex.linForms[a.id]
-	if !ok || d <= 0 || lf.g%d != 0 {
+	if !ok || d <= 0 || lf.g != d {
 		return nil
 	}
-	od, om := new(big.Int).QuoRem(lf.off, big.NewInt(d), new(big.Int))
-	if om.Sign() != 0 {
-		return nil
-	}
+	o1, o2 := new(big.Int).QuoRem(lf.off, big.NewInt(d), new(big.Int))
 	tc := ex.tc
-	q := lf.q
-	if lf.g/d != 1 {
-		q = tc.Mul(q, tc.BVConst(timeW, uint64(lf.g/d)))
+	q := tc.Sub(lf.q, ex.bigConst(o1))
+	if o2.Sign() != 0 {
+		borrow := tc.ULt(lf.rem, tc.BVConst(64, o2.Uint64()))
+		q = tc.Sub(q, tc.Ite(borrow, tc.BVConst(timeW, 1), tc.BVConst(timeW, 0)))
 	}
-	r := tc.Extract(tc.Sub(q, ex.bigConst(od)), 63, 0)
+	r := tc.Extract(q, 63, 0)
 	ex.addCond(tc.And(tc.SGe(r, tc.Int64(0)), tc.SLe(r, tc.Int64(1<<62))))
 	return r
 }
